@@ -23,6 +23,9 @@ PID = "C20"
 F_RB = "C20-rightbound-mark"
 F_MUT = "C20-openrange-rewrites-index"
 F_GRAM = "C20-bloom-gram-phrase"
+F_MATCHEQ = "C20-matchphrase-key-as-equality"
+F_LIKE = "C20-like-on-key-panics"
+STROPS = ("match", "ipinrange", "like", "matchop")
 OPS = {"=": "Ceq", "!=": "Cne", "<": "Clt", "<=": "Cle", ">": "Cgt", ">=": "Cge"}
 
 
@@ -38,14 +41,19 @@ def nat(n):
     return "%d%%nat" % int(n)
 
 
-def cond_coq(c, counter):
+def cond_coq(c, counter, strmode="true"):
+    """strmode: how MATCHPHRASE / IPINRANGE / LIKE / MATCH on a key column are rendered: "true" = the predicate may be true
+    anywhere (an AlwaysTrue element, the repaired reading), "eq" = MATCHPHRASE / IPINRANGE as the equality range [v,v]
+    (today's genRPNElementByOp)."""
     if c["op"] in ("and", "or"):
-        return "(%s %s %s)" % ("CAnd" if c["op"] == "and" else "COr", cond_coq(c["args"][0], counter), cond_coq(c["args"][1], counter))
+        return "(%s %s %s)" % ("CAnd" if c["op"] == "and" else "COr", cond_coq(c["args"][0], counter, strmode), cond_coq(c["args"][1], counter, strmode))
     if c["op"] == "in":
         return "(CIn %s [])" % nat(max(c["col"], 0))
-    if c["col"] < 0:
+    if c["col"] < 0 or (c["op"] in STROPS and strmode == "true"):
         counter[0] += 1
         return "(CNonKey %s)" % nat(counter[0])
+    if c["op"] in ("match", "ipinrange"):
+        return "(CAtom %s Ceq %s)" % (nat(c["col"]), z(c["enc"]))
     return "(CAtom %s %s %s)" % (nat(c["col"]), OPS[c["op"]], z(c["enc"]))
 
 
@@ -57,7 +65,7 @@ def bound_coq(v, k):
     return "(Fin %s)" % z(v)
 
 
-def case_coq(t, detail):
+def case_coq(t, detail, strmode="true"):
     keys = coq_list([coq_list(["None" if v is None else "(Some %s)" % z(v) for v in row]) for row in t["keys"]])
     rects = coq_list([coq_list(["(mkR %s %s true true)" % (bound_coq(r["lo"][c], r["lok"][c]), bound_coq(r["hi"][c], r["hik"][c]))
                                 for c in range(len(r["lo"]))]) for r in (t["rects"] or [])])
@@ -75,7 +83,7 @@ def case_coq(t, detail):
         scan_code = 2 if t["scanerr"].startswith("panic") else 1
     return ("(mkC %s (%s : list key) %s %s %s %s (%s : list (nat*nat)) (%s : list (list range)) %s (%s : list ((nat*nat) * list (list range * (bool*bool)) * (Z*Z))) %s %s (%s : list (nat*nat)) (%s : list Z) (%s : list (Z*Z)))" % (
         coq_list([coq_bool(b) for b in t["isint"]]), keys, coq_list([nat(s) for s in t["in"]["sizes"]]),
-        cond_coq(t["in"]["cond"], [0]), nat(t["in"]["coarse"]), nat(t["minmarks"]), probes, rects, coq_bool(detail), cbs,
+        cond_coq(t["in"]["cond"], [0], strmode), nat(t["in"]["coarse"]), nat(t["minmarks"]), probes, rects, coq_bool(detail), cbs,
         coq_bool(bool(t["conderr"])), nat(scan_code),
         coq_list(["(%s, %s)" % (nat(a), nat(b)) for a, b in t["ranges"]]),
         coq_list([z(x) for x in (t["maybe"] or [])]),
@@ -240,6 +248,71 @@ def _coq_atoms(tr):
 
 # ---------------------------------------------------------------------------------------------
 
+def strop_stream(ck, scases, vi):
+    """string operators on primary-key columns: direct oracle + signatures + correspondence under the two readings.
+    vi = index of the detected (rb, norm) model variant."""
+    verd = {"known_matcheq": 0, "known_like": 0, "violation": 0}
+    broken = []
+    if not scases:
+        return verd, broken, None
+
+    def keyops(t):
+        return set(a["op"] for a in atoms(t["in"]["cond"]) if a["col"] >= 0 and a["op"] in STROPS)
+    for t in scases:
+        if not t["oracle"]:
+            continue
+        ko = keyops(t)
+        nf = t["nfrag"]
+        compound = t["in"]["cond"]["op"] in ("and", "or") or t["in"].get("timecond")
+        panicked = "index out of range [-1]" in (t["scanerr"] or "") or -2 in (t["maybe"] or [])
+        covered = lambda f: any(a <= f < b for a, b in t["ranges"])
+        probes = [[f, f + 1] for f in range(nf)] + [list(p) for p in t["in"]["probes"]]
+        if panicked and compound and ko & {"like", "matchop"}:
+            if ck.match_finding(F_LIKE):
+                ck.known_finding(F_LIKE, "LIKE / MATCH on a primary-key column leaves no RPN element; the following AND/OR pops an empty stack and the scan panics")
+                verd["known_like"] += 1
+                continue
+        elif not panicked and ko & {"match", "ipinrange"} and not t["scanerr"] and \
+                all(not t["matcheq"][f] for f in range(nf) if t["match"][f] and not covered(f)) and \
+                all(not any(t["matcheq"][p[0]:p[1]]) for j, p in enumerate(probes)
+                    if j < len(t["maybe"]) and t["maybe"][j] == 0 and any(t["match"][p[0]:p[1]])):
+            if ck.match_finding(F_MATCHEQ):
+                ck.known_finding(F_MATCHEQ, "a fragment with a matching row is pruned: MATCHPHRASE / IPINRANGE on a primary-key column is read as the equality range [v,v]")
+                verd["known_matcheq"] += 1
+                continue
+        verd["violation"] += 1
+        if verd["violation"] <= 3:
+            ck.violation({"kind": "direct-oracle", "what": t["oracle"][:4], "in": t["in"], "case": t["id"], "stream": "strop",
+                          "ranges": t["ranges"], "match": t["match"], "scanerr": t["scanerr"]})
+    # correspondence: which reading does the tree implement?
+    res_true = eval_model(ck, scases, set(), "st", "true")
+    nolike = [t for t in scases if not keyops(t) & {"like", "matchop"}]
+    res_eq = eval_model(ck, nolike, set(), "se", "eq")
+    if res_true is None or res_eq is None:
+        return verd, broken, None
+
+    def mask(res, i):
+        e = res.get(i)
+        return 0 if e is None else (e[0][0] if len(e) == 1 else e[vi][0])
+    mis_true = [i for i in range(len(scases)) if mask(res_true, i)]
+    mis_eq = [i for i in range(len(nolike)) if mask(res_eq, i)]
+    like_ok = all(bool(t["scanerr"]) or not (t["in"]["cond"]["op"] in ("and", "or") or t["in"].get("timecond"))
+                  for t in scases if keyops(t) & {"like", "matchop"})
+    if not mis_true:
+        reading = "repaired"
+    elif not mis_eq and like_ok:
+        reading = "current"
+    else:
+        reading = None
+        i = mis_true[0]
+        if mis_eq:
+            scases = nolike
+            i = mis_eq[0]
+        broken.append(("correspondence C20: string operators on key columns match neither the equality reading nor the "
+                       "may-be-true reading (case id %d)" % scases[i]["id"], scases[i]))
+    return verd, broken, reading
+
+
 def explained_by_rb(t, e):
     nf = t["nfrag"]
     probes = [[f, f + 1] for f in range(nf)] + [list(p) for p in t["in"]["probes"]]
@@ -273,7 +346,7 @@ def run_harness(ck, binp, args, timeout=1200, env=None):
     return rc, cases, out
 
 
-def eval_model(ck, cases, detail_ids, tag="c"):
+def eval_model(ck, cases, detail_ids, tag="c", strmode="true"):
     """returns {case index: per-variant [(mask, cover, maybe)...]} for interesting cases; None on failure"""
     shard = 150
     files = []
@@ -283,7 +356,7 @@ def eval_model(ck, cases, detail_ids, tag="c"):
                "Import ListNotations.\n"
                "Definition cases : list ccase := [\n%s\n].\n"
                "Definition R := Eval vm_compute in results cases.\nPrint R.\n") % ";\n".join(
-                   case_coq(t, (i + j) in detail_ids) for j, t in enumerate(chunk))
+                   case_coq(t, (i + j) in detail_ids, strmode) for j, t in enumerate(chunk))
         files.append(("%s%d" % (tag, i // shard), txt))
     res = {}
     outs = ck.coq_eval_many(files, timeout=900)
@@ -386,6 +459,12 @@ def classify(ck, cases, tag):
 
 
 def main(ck):
+    # known_findings.json is merged from the per-property fragments by tools/merge.py; entries of the committed fragment
+    # props/C20/findings.json that have not been merged yet are honoured too (read-only, never written at run time)
+    frag = os.path.join(ck.verif, "props", PID, "findings.json")
+    if os.path.exists(frag):
+        have = set(f["id"] for f in ck.findings)
+        ck.findings += [f for f in json.load(open(frag))["findings"] if f["property"] == PID and f["id"] not in have]
     ck.assumptions += [
         "typed key values are compared by the harness through order-preserving encodings into Z (integers as themselves, "
         "floats/strings/booleans by dense rank within the case; no NaN, no -0.0); literals have the column's type",
@@ -468,9 +547,20 @@ def main(ck):
     if not cases:
         ck.cov["evaluations"] = len(bcases)
         return
+    scases = [t for t in cases if t["in"].get("tag") == "strop"]
+    allcases = cases
+    cases = [t for t in cases if t["in"].get("tag") != "strop"]
     r = classify(ck, cases, "c")
     if r is None:
         return
+    vi = (2 if r["rb"] == "repaired" else 0) + (1 if r["norm"] == "repaired" else 0)
+    sverd, sbroken, sreading = strop_stream(ck, scases, vi)
+    r["broken"] += sbroken
+    r["verdicts"].update(sverd)
+    ck.cov["string_operators_on_key_columns"] = {"evaluations": len(scases), "verdicts": sverd, "reading_detected": sreading}
+    for fid, key in ((F_MATCHEQ, "known_matcheq"), (F_LIKE, "known_like")):
+        if ck.match_finding(fid) and scases and sverd[key] == 0:
+            ck.notes.append("open finding %s did not reproduce in this run (stale?)" % fid)
     ck.notes.append("variant detected: checkRangeRightBound=%s, index-bound rewriting=%s; mismatch counts %s; oracle verdicts %s" % (
         r["rb"], r["norm"], r["mismatch_counts"], r["verdicts"]))
     ck.log(ck.notes[-1])
@@ -483,20 +573,20 @@ def main(ck):
     if r["broken"] and r["verdicts"]["violation"] == 0:
         # a disagreement without a failing input: search a fresh, larger stream with the direct oracle before giving up
         rc, cs2, out = run_harness(ck, binp, ["gen", str(max(3 * n, 1500))], env={"VERIF_SEED": str(ck.seed + 1)})
-        bad = [t for t in cs2 if t["oracle"]]
+        bad = [t for t in cs2 if t["oracle"] and t["in"].get("tag") != "strop"]
         if bad:
-            r2 = classify(ck, cs2, "x")
-            if r2 and r2["verdicts"]["violation"] == 0:
-                pass   # every failing input of the fresh stream is inside a known signature: still a broken correspondence
+            classify(ck, [t for t in cs2 if t["in"].get("tag") != "strop"], "x")   # reports failing inputs outside the signatures
         for msg, i in r["broken"][:3]:
             ck.broken.append(msg)
         i = r["broken"][0][1]
-        ck.nofail_detail = {"kind": "correspondence", "explanation": r["broken"][0][0], "in": cases[i]["in"],
-                            "implementation": {k: cases[i][k] for k in ("conderr", "scanerr", "ranges", "maybe", "marks", "mutated")}}
+        bt = cases[i] if isinstance(i, int) else i
+        ck.nofail_detail = {"kind": "correspondence", "explanation": r["broken"][0][0], "in": bt["in"],
+                            "implementation": {k: bt[k] for k in ("conderr", "scanerr", "ranges", "maybe", "marks", "mutated")}}
     # ---- coverage
     hist = {"key_columns": {}, "types": {}, "ops": {}, "strategy": {"binary": 0, "exclusion": 0}, "with_nulls": 0,
             "cond_errors": {}, "scan_errors": {}, "fragments": {}, "tags": {}}
     nontriv = set()
+    cases = allcases
     for t in cases:
         i = t["in"]
         hist["key_columns"][len(i["types"])] = hist["key_columns"].get(len(i["types"]), 0) + 1
@@ -532,7 +622,7 @@ def main(ck):
     ck.cov["variant_detected"] = {"checkRangeRightBound": r["rb"], "index_bound_rewriting": r["norm"]}
     ck.cov["oracle_verdicts"] = r["verdicts"]
     ck.cov["model_mismatch_counts"] = r["mismatch_counts"]
-    ok_cases = len(cases) - len(set(i for _, i in r["broken"]))
+    ok_cases = len(cases) - len(r["broken"])
     ck.cov["traces_validated_against_impl"] = ok_cases if not r["broken"] else 0
     ck.cov["samples"] = [{"types": t["in"]["types"], "rows": t["in"]["rows"][:6], "sizes": t["in"]["sizes"], "cond": t["in"]["cond"],
                           "ranges": t["ranges"], "match": t["match"]} for t in cases[ncorpus:ncorpus + 2]]
